@@ -178,6 +178,11 @@ class UbxRun:
                 else:
                     self.filter_list[:] = new
                 p.set_filters(self.filter_list)
+            elif op == 'J':
+                # … and passes that one list object once more without touching it: it holds what the application wrote into it last
+                # (nothing the library did since may have changed the caller's list)
+                if self.filter_list is not None:
+                    p.set_filters(self.filter_list)
             elif op == 'E':
                 p.empty_queue()
             elif op[0] == 'F':
@@ -292,6 +297,34 @@ def real_ubxbulk(line):
     if toks[-1] == 'stable=false':
         return 'PAYLOADS-CHANGED ' + summarise(toks[:-1])
     return summarise(toks[:-1] if toks[-1].startswith('stable=') else toks)
+
+
+def canon_g(line):
+    """J (the caller's one filter list passed again untouched) written as H with what the caller wrote into the list last; in an
+    interleaved line every history has its own list"""
+    if ';J' not in line and '|J' not in line:
+        return line
+
+    def one(ops):
+        out, last = [], None
+        for o in ops.split(';'):
+            if o and o[0] == 'H':
+                last = o
+            if o == 'J':
+                out.append(last if last is not None else 'T0')      # (no list yet: nothing happens; the op count stays)
+                continue
+            out.append(o)
+        return ';'.join(out)
+    segs = line.split('|')
+    if segs[0] == 'ubx':
+        return 'ubx|' + one('|'.join(segs[1:]))
+    if segs[0] == 'ubxil':
+        return '|'.join(segs[:2] + [one(x) for x in segs[2:]])
+    return line
+
+
+def model_line_ubx(line):
+    return canon_g(line)
 
 
 def real_ubx(line):
@@ -416,6 +449,7 @@ def show_events(s):
 
 
 def features_ubx(line):
+    line = canon_g(line)
     ops = expand_z(line).split('|', 1)[1].split(';')
     first_p = next((i for i, o in enumerate(ops) if o[0] in FEED), len(ops))
     mid = ops[first_p:]
@@ -486,6 +520,7 @@ def oracles_ubx(line, real_out):
         return [{'prop': q, 'ok': real_out == exp, 'expected': exp, 'observed': real_out[:300], 'what': what} for q in ('C02', 'C03', 'C09', 'C11')], []
     if line.startswith('ubxil|'):
         return oracles_interleaved('ubx', oracles_ubx, line, real_out)
+    line = canon_g(line)
     exp, pieces = spec_ubx(line)
     ft = features_ubx(line)
     recs = []
@@ -780,6 +815,12 @@ def with_copies(rng, ln):
             m = rng.choice([cnt, cnt, cnt + 1, max(1, cnt - 1)])
             new = 'H' + ','.join(f'{c}:{i}' for c, i in (rng.sample(CIDS, min(m, len(CIDS)))))
             ops.insert(rng.choice(feeds[1:]), new)
+        if first and rng.random() < 0.5:
+            # … a set_filter() for a single class/id in between, then the one list passed again as it is
+            hs = [k for k, o in enumerate(ops) if o[0] == 'H']
+            k = rng.choice(hs) + 1
+            c, i = rng.choice(CIDS)
+            ops[k:k] = [f'S{c}:{i}'] + ([rng.choice([o for o in ops if o[0] in FEED])] if rng.random() < 0.5 else []) + ['J']
     if rng.random() < 0.7 or kind != 'ubx':
         for _ in range(rng.choice([1, 1, 2])):
             ops.insert(rng.randrange(len(ops) + 1), f'C{rng.randrange(3)}')
@@ -968,7 +1009,35 @@ def gen_nmea(rng, n, profile):
                 hold = []
 
 
+def high_digit_sentences():
+    """every byte from 0x80 up in either checksum-digit position, against every value the other digit and the body could make it
+    'fit' under some folding of the byte to a hex digit: a byte that is no hex digit is no checksum digit, whatever arithmetic would
+    make of it"""
+    hexd = b'0123456789ABCDEF'
+    for b in range(0x80, 0x100):
+        for pos in (0, 1):
+            for v in range(16):
+                for other in ({(b >> 4) & 0xF, b & 0xF, (b & 0x5F) % 16, v}):
+                    x = (v << 4 | other) if pos == 0 else (other << 4 | v)
+                    a = 0x41 + (x >> 4)
+                    c2 = a ^ x
+                    body = bytes([a, c2]) if c2 not in (0x24, 0x2a, 0x0d, 0x0a, 0x00) and c2 < 0x80 else None
+                    if body is None:
+                        continue
+                    digits = bytes([b, hexd[other]]) if pos == 0 else bytes([hexd[other], b])
+                    yield b'$' + body + b'*' + digits + b'\r\n'
+
+
 def gen_nmea1(rng, n, profile):
+    if profile == 'count':
+        batch = b''
+        for k, sn in enumerate(high_digit_sentences()):
+            batch += sn
+            if k % 64 == 63:
+                yield 'nmea|P' + batch.hex()
+                batch = b''
+        if batch:
+            yield 'nmea|P' + batch.hex()
     for _ in range(n):
         s = nmea_stream(rng)
         if profile == 'count':
@@ -1064,7 +1133,7 @@ def gen_cid(rng, n, profile):
 
 COMPONENTS = {
     'cid': {'real': real_cid, 'oracles': oracles_cid, 'gen': gen_cid},
-    'ubx': {'real': real_ubx, 'oracles': oracles_ubx, 'gen': gen_ubx, 'features': features_ubx,
+    'ubx': {'real': real_ubx, 'oracles': oracles_ubx, 'gen': gen_ubx, 'features': features_ubx, 'model_line': model_line_ubx,
             'exhaustive': exhaustive_ubx_transitions},
     'nmea': {'real': real_nmea, 'oracles': oracles_nmea, 'gen': gen_nmea, 'exhaustive': exhaustive_nmea_transitions},
 }
